@@ -380,6 +380,7 @@ func (s *requestState) startTimeout(timeout time.Duration) {
 		case <-timer.C:
 			verifhook.At("req.timeout.fire", s, 0, 0)
 			_ = s.requester.enqueueAsyncError(context.Background(), s.id, gerrors.ErrRequestTimeout)
+			verifhook.At("req.timeout.done", s, 0, 0)
 		case <-stopCh:
 			return
 		}
